@@ -307,6 +307,7 @@ func init() {
 			cfg.PAlias = 40
 			cfg.MaxStructs = 4
 			cfg.PLiteral = 10
+			cfg.PWildcard = 45 // every other pipeline has a wildcard binding (* = CALL, * = self.<struct input>, wildcard return)
 			p := pgen.Generate(c.Seed*523+int64(i), cfg)
 			isSkel := i%10 == 3
 			if isSkel {
